@@ -115,12 +115,17 @@ class Injector(object):
         self.cls.solve = self.orig
 
 
-def run_model(s, faults, convergence_error, backup):
-    """returns dict(obs) of one real run."""
+def run_model(s, faults, convergence_error, backup, reuse=None):
+    """returns dict(obs) of one real run; reuse = (wn, sim) of an earlier run: the model is reset and the SAME simulator
+    object runs again."""
     import wntr, warnings, numpy as np
     from wntr.sim.solvers import NewtonSolver
-    wn = build(s)
-    sim = wntr.sim.WNTRSimulator(wn)
+    if reuse is None:
+        wn = build(s)
+        sim = wntr.sim.WNTRSimulator(wn)
+    else:
+        wn, sim = reuse
+        wn.reset_initial_values()
     out = {"raised": None, "warnings": [], "error_code": None, "res": None}
     with Injector(faults) as inj:
         inj.wn = wn
@@ -138,6 +143,7 @@ def run_model(s, faults, convergence_error, backup):
         out["warnings"] = [str(x.message) for x in w]
     out["calls"] = inj.calls
     out["wn"] = wn
+    out["sim"] = sim
     return out
 
 
@@ -192,6 +198,10 @@ def cases(tier):
         out.append({"model": "resolve", "mode": "trials", "trials": tr})
         out.append({"model": "pumpctl", "mode": "trials", "trials": tr})
     out.append({"model": "contradiction", "mode": "contradiction"})
+    # one simulator object, two runs: the first with a backup solver that rescues a faulted solve, the second (after a reset)
+    # without backup and with the same fault - nothing of the first call's arguments may survive into the second
+    for name in ("chain", "looptank", "pumpctl") if tier == "quick" else tuple(models()):
+        out.append({"model": name, "mode": "reuse"})
     # shape of the fault-free result tables over the time options: duration (zero, shorter than a step, off the grid), hydraulic
     # step, report step (equal, multiple, not a multiple of the hydraulic step, 'ALL')
     durs = (0, 1800, 3600, 16200, 21600) if tier == "quick" else (0, 1, 1800, 3600, 5400, 16200, 21600, 30000)
@@ -332,6 +342,36 @@ def run_case(c):
         if solved and (solved[0] != 0 or solved[-1] != last or any(t % hyd == 0 and t not in solved for t in range(0, last + 1, hyd))):
             viol.append({"key": "shape:hydraulic-grid", "what": "duration %d, hydraulic step %d: solved instants %s do not cover the hydraulic grid up to %d" % (c["dur"], hyd, solved, last)})
         return {"viol": viol[:4], "nontrivial": c["dur"] >= hyd, "outcome": "shape:%s" % ("ALL" if rep == "ALL" else ("adjusted" if adjusted else "grid")), "counts": counts}
+    if c["mode"] == "reuse":
+        r0 = run_model(s, {}, False, False)
+        N = len(r0["calls"])
+        ridx = [int(t) for t in r0["res"].node["head"].index]
+        for k in sorted(set([1, max(1, N // 2), N])):
+            for kind in ("maxiter", "singular"):
+                first = run_model(s, {k: kind}, False, True)                       # rescued by the backup solver
+                counts["executions"] = counts.get("executions", 0) + 2
+                if first["raised"] or first["error_code"] is not None:
+                    continue
+                for ce in (False, True):
+                    second = run_model(s, {k: kind}, ce, False, reuse=(first["wn"], first["sim"]))
+                    failed_at = [t for (kk, t, stt, knd) in second["calls"] if knd and stt != 1]
+                    if not failed_at:
+                        continue        # the fault did not bite this time (e.g. already converged start)
+                    if ce:
+                        if second["raised"] is None:
+                            viol.append({"key": "reuse:hidden:no-exception", "what": "second run on the same simulator (no backup solver, fault %s at solve %d): convergence_error=True returned normally" % (kind, k)})
+                    else:
+                        if second["raised"] is not None:
+                            viol.append({"key": "reuse:unexpected-exception", "what": "second run raised %s" % second["raised"]})
+                        elif second["error_code"] is None:
+                            idx = [int(t) for t in second["res"].node["head"].index]
+                            viol.append({"key": "reuse:hidden:no-error-code", "what": "second run on the same simulator (no backup solver, fault %s at solve %d) reports no error and the steps %s; a fresh simulator stops at the failed step" % (kind, k, idx[:8])})
+                    first = run_model(s, {k: kind}, False, True)
+        seen, out_ = set(), []
+        for v in viol:
+            if v["key"] not in seen:
+                seen.add(v["key"]); out_.append(v)
+        return {"viol": out_, "nontrivial": True, "outcome": "reuse", "counts": counts}
     if c["mode"] == "trials":
         ref = run_model(s, {}, False, False)
         s2 = clone(s)
